@@ -9,6 +9,23 @@
 //! `sqlite := some (some rows)`).  ORACLE (C19): the new dictionary holds exactly the generated
 //! records (phrase, syllables, user frequency, time); the SQLite store still yields the same rows
 //! afterwards; a second start changes nothing.
+//!
+//! Older `userphrase_v1` schema (what the C library wrote): the harness creates such stores itself
+//! through `rusqlite` (the table of 0.5-0.8: time, user_freq, max_freq, orig_freq, length,
+//! phone_0..phone_10, phrase; optionally the `config_v1` table), with records of 1..11 syllables
+//! (lengths 10 and 11 weighted), near-duplicates, zero / out-of-range numbers, and runs the real
+//! in-file migration (`SqliteDictionary::open`) and the real loader on copies of the file:
+//!
+//!   loader sqlv1 V:<raw v1 rows> => ok <rows SqliteDictionary::entries() yields> | err
+//!
+//! a raw row is `<time>,<user_freq>,<max_freq>,<orig_freq>,<length>,<phone_0>,…,<phone_10>/<x-hex phrase>`
+//! (signed decimal, table order).  The model (`Model/SqliteV1.lean`) decodes the rows as
+//! `migrate_from_userphrase_v1` does and joins them as `entries()` does.  ORACLE (C19): every
+//! generated record is present with its phrase, ALL its syllables, user frequency and time and
+//! nothing else is; the `userphrase_v1` table is byte-for-byte what the generator wrote after
+//! every start; re-opening migrates nothing a second time (a frequency learned in between stays);
+//! the loader's first start over the unmigrated file yields the same records, the second start
+//! changes nothing.
 //! Built without the feature this binary does nothing.
 #[cfg(not(feature = "sqlite"))]
 fn main() {
@@ -106,6 +123,421 @@ mod sql {
         }
     }
 
+
+    // ------------------------------------------------------------------ userphrase_v1 stores
+    /// one raw row of `userphrase_v1` in table order
+    #[derive(Clone, Debug, PartialEq, Eq, PartialOrd, Ord)]
+    struct V1 {
+        time: i64,
+        user: i64,
+        max: i64,
+        orig: i64,
+        length: i64,
+        phones: [i64; 11],
+        phrase: String,
+    }
+
+    fn v1_tok(r: &V1) -> String {
+        let mut nums = vec![r.time, r.user, r.max, r.orig, r.length];
+        nums.extend_from_slice(&r.phones);
+        format!("{}/x{}", nums.iter().map(|n| n.to_string()).collect::<Vec<_>>().join(","), hex(r.phrase.as_bytes()))
+    }
+
+    fn v1_rows_tok(rs: &[V1]) -> String {
+        format!("V:{}", rs.iter().map(v1_tok).collect::<Vec<_>>().join(";"))
+    }
+
+    const V1_SCHEMA: &str = "CREATE TABLE IF NOT EXISTS userphrase_v1 (
+            time INTEGER,
+            user_freq INTEGER,
+            max_freq INTEGER,
+            orig_freq INTEGER,
+            length INTEGER,
+            phone_0 INTEGER,
+            phone_1 INTEGER,
+            phone_2 INTEGER,
+            phone_3 INTEGER,
+            phone_4 INTEGER,
+            phone_5 INTEGER,
+            phone_6 INTEGER,
+            phone_7 INTEGER,
+            phone_8 INTEGER,
+            phone_9 INTEGER,
+            phone_10 INTEGER,
+            phrase TEXT,
+            PRIMARY KEY (phone_0,phone_1,phone_2,phone_3,phone_4,phone_5,phone_6,phone_7,phone_8,phone_9,phone_10,phrase)
+        )";
+
+    /// what the C library's `chewing.sqlite3` looks like: `userphrase_v1` (+ `config_v1` with the lifetime)
+    fn write_v1(path: &Path, rows: &[V1], with_config: bool) -> Vec<V1> {
+        use rusqlite::{params, Connection};
+        let db = Connection::open(path).unwrap();
+        db.execute(V1_SCHEMA, []).unwrap();
+        if with_config {
+            db.execute("CREATE TABLE IF NOT EXISTS config_v1 (id INTEGER, value INTEGER, PRIMARY KEY (id))", []).unwrap();
+            db.execute("INSERT OR IGNORE INTO config_v1 (id, value) VALUES (0, 186613)", []).unwrap();
+        }
+        let mut kept = vec![];
+        for r in rows {
+            let p = &r.phones;
+            let n = db
+                .execute(
+                    "INSERT OR IGNORE INTO userphrase_v1 (
+                    time, user_freq, max_freq, orig_freq, length,
+                    phone_0,phone_1,phone_2,phone_3,phone_4,phone_5,phone_6,phone_7,phone_8,phone_9,phone_10,phrase
+                ) VALUES (?, ?, ?, ?, ?, ?, ?, ?, ?, ?, ?, ?, ?, ?, ?, ?, ?)",
+                    params![r.time, r.user, r.max, r.orig, r.length, p[0], p[1], p[2], p[3], p[4], p[5], p[6], p[7], p[8], p[9], p[10], r.phrase],
+                )
+                .unwrap();
+            if n == 1 {
+                kept.push(r.clone());
+            }
+        }
+        db.close().unwrap();
+        kept
+    }
+
+    /// the raw rows of `userphrase_v1` (rowid order), `None` if the table is gone
+    fn raw_v1(path: &Path) -> Option<Vec<V1>> {
+        use rusqlite::Connection;
+        let db = Connection::open(path).ok()?;
+        let mut stmt = db
+            .prepare(
+                "SELECT time, user_freq, max_freq, orig_freq, length,
+                    phone_0,phone_1,phone_2,phone_3,phone_4,phone_5,phone_6,phone_7,phone_8,phone_9,phone_10,phrase
+                 FROM userphrase_v1 ORDER BY rowid",
+            )
+            .ok()?;
+        let rows = stmt
+            .query_map([], |row| {
+                let mut phones = [0i64; 11];
+                for (i, p) in phones.iter_mut().enumerate() {
+                    *p = row.get(5 + i)?;
+                }
+                Ok(V1 { time: row.get(0)?, user: row.get(1)?, max: row.get(2)?, orig: row.get(3)?, length: row.get(4)?, phones, phrase: row.get(16)? })
+            })
+            .ok()?
+            .collect::<Result<Vec<_>, _>>()
+            .ok()?;
+        Some(rows)
+    }
+
+    fn count_rows(path: &Path, table: &str) -> i64 {
+        rusqlite::Connection::open(path)
+            .and_then(|db| db.query_row(&format!("SELECT count(*) FROM {}", table), [], |r| r.get(0)))
+            .unwrap_or(-1)
+    }
+
+    fn in_range(r: &V1) -> bool {
+        r.phones.iter().all(|p| (0..=65535).contains(p)) && (0..=u32::MAX as i64).contains(&r.user) && (0..=u32::MAX as i64).contains(&r.orig) && r.time >= 0
+    }
+
+    /// the legacy record a raw row stands for: its non-zero phones, phrase, user frequency, time
+    fn record_of(r: &V1) -> E {
+        let syls: Vec<u16> = r.phones.iter().filter(|p| **p != 0).map(|p| *p as u16).collect();
+        (syls, r.phrase.clone().into_bytes(), r.user.max(r.orig) as u32, r.time as u64)
+    }
+
+    /// zero-terminated phones, user frequency at least the original one: what the C library wrote
+    fn well_formed(r: &V1) -> bool {
+        let k = r.phones.iter().take_while(|p| **p != 0).count();
+        in_range(r) && k >= 1 && r.phones[k..].iter().all(|p| *p == 0) && r.user >= r.orig
+    }
+
+    fn gen_v1_row(rng: &mut Rng, prev: &[V1]) -> V1 {
+        // lengths 10 and 11 weighted
+        let k = match rng.weighted(&[45, 20, 35]) {
+            0 => 1 + rng.below(9) as usize,
+            1 => 10,
+            _ => 11,
+        };
+        let mut phones = [0i64; 11];
+        let mut phrase: String = (0..k).map(|_| *rng.pick(CHARS)).collect();
+        for p in phones.iter_mut().take(k) {
+            *p = *rng.pick(SYLS) as i64;
+        }
+        // near-duplicates of an earlier row: same phrase and syllables but the last one / same syllables, other phrase
+        if !prev.is_empty() && rng.chance(1, 4) {
+            let q = rng.pick(prev).clone();
+            let qk = q.phones.iter().filter(|p| **p != 0).count();
+            match rng.below(4) {
+                3 if (2..=10).contains(&qk) && q.phones[..qk].iter().all(|p| *p != 0) => {
+                    // the same record once more with a zero phone in the middle: same key after decoding
+                    phones = q.phones;
+                    phrase = q.phrase.clone();
+                    let at = 1 + rng.below(qk as u64 - 1) as usize;
+                    for i in (at..qk).rev() {
+                        phones[i + 1] = phones[i];
+                    }
+                    phones[at] = 0;
+                }
+                0 if qk >= 2 => {
+                    phones = q.phones;
+                    phrase = q.phrase.clone();
+                    let last = (0..11).rev().find(|i| phones[*i] != 0).unwrap();
+                    let mut s = *rng.pick(SYLS) as i64;
+                    if s == phones[last] {
+                        s = SYLS[0] as i64 + 1;
+                    }
+                    phones[last] = s;
+                }
+                1 => {
+                    phones = q.phones;
+                }
+                _ => {
+                    phrase = q.phrase.clone();
+                }
+            }
+        }
+        let orig = match rng.below(4) {
+            0 => 0,
+            _ => rng.below(500) as i64,
+        };
+        let mut user = match rng.below(8) {
+            0 => orig,
+            1 => 0.max(orig),
+            2 => u32::MAX as i64 - rng.below(3) as i64,
+            _ => orig + rng.below(1000) as i64,
+        };
+        if rng.chance(1, 25) {
+            user = rng.below(orig as u64 + 1) as i64; // below the original frequency: the joined view answers the larger one
+        }
+        let time = match rng.below(4) {
+            0 => 0,
+            1 => rng.below(70000) as i64,
+            2 => rng.below(1 << 40) as i64,
+            _ => rng.below(5000) as i64,
+        };
+        let real_k = phones.iter().filter(|p| **p != 0).count() as i64;
+        let length = if rng.chance(1, 20) { rng.below(12) as i64 } else { real_k };
+        // a hole: a zero phone before the end (the migration skips empty syllables, it does not stop)
+        if rng.chance(1, 25) {
+            let kk = real_k as usize;
+            if kk >= 2 && kk <= 10 {
+                let at = 1 + rng.below(kk as u64 - 1) as usize;
+                for i in (at..kk).rev() {
+                    phones[i + 1] = phones[i];
+                }
+                phones[at] = 0;
+            }
+        }
+        V1 { time, user, max: user.max(orig) + rng.below(3) as i64, orig, length, phones, phrase }
+    }
+
+    /// numbers the migration cannot read (`row.get::<u16/u32/u64>` fails): the whole store is rejected
+    fn spoil(rng: &mut Rng, r: &mut V1) -> &'static str {
+        match rng.below(5) {
+            0 => {
+                r.user = -1 - rng.below(5) as i64;
+                "negative-user-freq"
+            }
+            1 => {
+                r.orig = -1;
+                "negative-orig-freq"
+            }
+            2 => {
+                r.time = -1 - rng.below(1000) as i64;
+                "negative-time"
+            }
+            3 => {
+                r.user = u32::MAX as i64 + 1 + rng.below(10) as i64;
+                "user-freq-above-u32"
+            }
+            _ => {
+                let i = rng.below(11) as usize;
+                r.phones[i] = if rng.chance(1, 2) { 65536 + rng.below(10) as i64 } else { -1 };
+                "phone-out-of-u16"
+            }
+        }
+    }
+
+    fn v1_store(out: &mut Out, rng: &mut Rng, i: usize, st: &mut std::collections::BTreeMap<&'static str, usize>) {
+        let mut bump = |k: &'static str, n: usize| *st.entry(k).or_insert(0) += n;
+        let dir_a = tempfile::tempdir().unwrap();
+        let dir_b = tempfile::tempdir().unwrap();
+        let sq_a = dir_a.path().join("chewing.sqlite3");
+        let sq_b = dir_b.path().join("chewing.sqlite3");
+        let n = match i % 6 {
+            0 => 0,
+            1 => 1,
+            2 => 12 + rng.below(20) as usize,
+            _ => 1 + rng.below(7) as usize,
+        };
+        let mut rows: Vec<V1> = vec![];
+        for _ in 0..n {
+            let r = gen_v1_row(rng, &rows);
+            rows.push(r);
+        }
+        let mut spoiled = None;
+        if !rows.is_empty() && rng.chance(1, 8) {
+            let at = rng.below(rows.len() as u64) as usize;
+            spoiled = Some(spoil(rng, &mut rows[at]));
+        }
+        let rows = write_v1(&sq_a, &rows, i % 2 == 0);
+        std::fs::copy(&sq_a, &sq_b).unwrap();
+        let what = format!("generated-v1-store-{} rows={}", i, v1_rows_tok(&rows));
+        bump("sqlite_v1_stores", 1);
+        bump("sqlite_v1_rows", rows.len());
+        for r in &rows {
+            let k = r.phones.iter().filter(|p| **p != 0).count();
+            bump(
+                match k {
+                    10 => "sqlite_v1_rows_10_syllables",
+                    11 => "sqlite_v1_rows_11_syllables",
+                    _ => "sqlite_v1_rows_1_to_9_syllables",
+                },
+                1,
+            );
+            if !well_formed(r) {
+                bump("sqlite_v1_rows_not_well_formed", 1);
+            }
+            if r.user == 0 || r.orig == 0 {
+                bump("sqlite_v1_rows_zero_freq", 1);
+            }
+        }
+        let all_in_range = rows.iter().all(in_range);
+        // what the store holds, last row of a key wins (rows whose phones differ only by a hole share a key)
+        let mut want_map = std::collections::BTreeMap::new();
+        for r in &rows {
+            if in_range(r) {
+                let e = record_of(r);
+                want_map.insert((e.0.clone(), e.1.clone()), e);
+            }
+        }
+        let want: Vec<E> = want_map.values().cloned().collect();
+        if want.len() < rows.len() && all_in_range {
+            bump("sqlite_v1_stores_with_colliding_keys", 1);
+        }
+        let lhs = format!("loader sqlv1 {}", v1_rows_tok(&rows));
+
+        // ---- A: the in-file migration itself
+        let opened = SqliteDictionary::open(&sq_a);
+        match opened {
+            Err(_) => {
+                out.rec(&format!("{} => err", lhs));
+                if all_in_range {
+                    out.oracle_fail("C19", "new", &format!("v1-store-of-readable-rows-rejected {}", what));
+                } else {
+                    bump("sqlite_v1_stores_rejected", 1);
+                }
+            }
+            Ok(d) => {
+                let got = sorted(d.entries().map(|e| entry_of(&e)).collect());
+                drop(d);
+                out.rec(&format!("{} => ok {}", lhs, entries_tok(&got)));
+                if !all_in_range {
+                    out.oracle_fail("C19", "new", &format!("v1-store-with-unreadable-number-accepted spoiled={:?} {}", spoiled, what));
+                }
+                // complete and exact, record by record for the rows the C library could have written
+                for r in rows.iter().filter(|r| well_formed(r)) {
+                    let e = record_of(r);
+                    let last = want_map.get(&(e.0.clone(), e.1.clone())) == Some(&e);
+                    if last && !got.contains(&e) {
+                        out.oracle_fail(
+                            "C19",
+                            "new",
+                            &format!("v1-record-missing-or-altered record={} syllables={} got={} {}", v1_tok(r), e.0.len(), entries_tok(&got), what),
+                        );
+                        break;
+                    }
+                }
+                if all_in_range && got != sorted(want.clone()) {
+                    out.oracle_fail("C19", "new", &format!("v1-migrated-rows-differ-from-the-legacy-records want={} got={} {}", entries_tok(&sorted(want.clone())), entries_tok(&got), what));
+                }
+                if raw_v1(&sq_a).as_ref() != Some(&rows) {
+                    out.oracle_fail("C19", "new", &format!("userphrase_v1-table-changed-by-the-migration {}", what));
+                }
+                // exactly once: learn a new frequency for a migrated record, re-open twice
+                let n_v2 = count_rows(&sq_a, "userphrase_v2");
+                let mut expect2 = got.clone();
+                if let Some(pos) = (!got.is_empty()).then(|| rng.below(got.len() as u64) as usize) {
+                    let (syls, phrase, freq, time) = got[pos].clone();
+                    if freq < u32::MAX - 8 {
+                        let mut d = SqliteDictionary::open(&sq_a).unwrap();
+                        let ss: Vec<Syllable> = syls.iter().map(|s| Syllable::try_from(*s).unwrap()).collect();
+                        let ph = String::from_utf8(phrase.clone()).unwrap();
+                        d.as_dict_mut().unwrap().update_phrase(&ss, Phrase::new(ph.as_str(), freq), freq + 7, time + 1).unwrap();
+                        let _ = d.as_dict_mut().unwrap().flush();
+                        drop(d);
+                        expect2[pos].2 = freq + 7;
+                        bump("sqlite_v1_learned_between_opens", 1);
+                    }
+                }
+                for round in 0..2 {
+                    match SqliteDictionary::open(&sq_a) {
+                        Ok(d) => {
+                            let again = sorted(d.entries().map(|e| entry_of(&e)).collect());
+                            drop(d);
+                            if again != sorted(expect2.clone()) {
+                                out.oracle_fail("C19", "new", &format!("v1-store-migrated-again-on-reopen round={} want={} got={} {}", round, entries_tok(&sorted(expect2.clone())), entries_tok(&again), what));
+                                break;
+                            }
+                        }
+                        Err(_) => {
+                            out.oracle_fail("C19", "new", &format!("migrated-v1-store-cannot-be-reopened {}", what));
+                            break;
+                        }
+                    }
+                }
+                if count_rows(&sq_a, "userphrase_v2") != n_v2 {
+                    out.oracle_fail("C19", "new", &format!("userphrase_v2-grew-on-reopen before={} after={} {}", n_v2, count_rows(&sq_a, "userphrase_v2"), what));
+                }
+                if raw_v1(&sq_a).as_ref() != Some(&rows) {
+                    out.oracle_fail("C19", "new", &format!("userphrase_v1-table-changed-by-a-reopen {}", what));
+                }
+            }
+        }
+
+        // ---- B: the loader's first start over the UNMIGRATED file, second start
+        let dat = dir_b.path().join("chewing.dat");
+        match UserDictionaryLoader::new().userphrase_path(&dat).load() {
+            Err(_) => {
+                if all_in_range {
+                    out.oracle_fail("C19", "new", &format!("v1-store-not-migrated-by-the-loader {}", what));
+                }
+            }
+            Ok(d) => {
+                let es = sorted(d.entries().map(|e| entry_of(&e)).collect());
+                drop(d);
+                out.rec(&format!("loader sqlstart {} => ok {} {}", entries_tok(&sorted(want.clone())), entries_tok(&es), dat_entries(&dat).map(|a| entries_tok(&sorted(a))).unwrap_or("corrupt".into())));
+                if !all_in_range {
+                    out.oracle_fail("C19", "new", &format!("loader-accepted-a-v1-store-with-an-unreadable-number {}", what));
+                } else if es != sorted(want.clone()) {
+                    out.oracle_fail("C19", "new", &format!("first-start-dictionary-differs-from-the-v1-records want={} got={} {}", entries_tok(&sorted(want.clone())), entries_tok(&es), what));
+                }
+                match UserDictionaryLoader::new().userphrase_path(&dat).load() {
+                    Ok(d2) => {
+                        let es2 = sorted(d2.entries().map(|e| entry_of(&e)).collect());
+                        drop(d2);
+                        if es2 != es || dat_entries(&dat).map(sorted) != Some(es.clone()) {
+                            out.oracle_fail("C19", "new", &format!("second-start-changed-the-dictionary {}", what));
+                        }
+                    }
+                    Err(_) => out.oracle_fail("C19", "new", &format!("second-start-failed {}", what)),
+                }
+            }
+        }
+        if raw_v1(&sq_b).as_ref() != Some(&rows) {
+            out.oracle_fail("C19", "new", &format!("userphrase_v1-table-changed-by-the-loader {}", what));
+        }
+    }
+
+    fn v1_fixed_cases() -> Vec<Vec<V1>> {
+        let full = |a: i64, b: i64, phrase: &str, user: i64| {
+            let mut phones = [a; 11];
+            phones[10] = b;
+            V1 { time: 99, user, max: user, orig: 1, length: 11, phones, phrase: phrase.to_string() }
+        };
+        let mut ten = full(10268, 0, "測試測試測試測試測試", 7);
+        ten.length = 10;
+        vec![
+            // two 11-syllable records that share the first ten syllables and the phrase
+            vec![full(10268, 8708, "測試測試測試測試測試冊", 5), full(10268, 10268, "測試測試測試測試測試冊", 6)],
+            // a 10-syllable record next to its 11-syllable extension
+            vec![ten, full(10268, 8708, "測試測試測試測試測試", 9)],
+        ]
+    }
+
     pub fn main() {
         let mut out = Out::new();
         let mut rng = Rng::new(seed_from_env() ^ 0xC19_5);
@@ -145,6 +577,32 @@ mod sql {
         }
         out.stat("sqlite_v2_stores", n);
         out.stat("sqlite_v2_records", total);
+        // ---- generated userphrase_v1-schema stores
+        let mut st = std::collections::BTreeMap::new();
+        let n1 = if tier_is_thorough() { 600 } else { 60 };
+        for i in 0..n1 {
+            v1_store(&mut out, &mut rng, i, &mut st);
+        }
+        for (k, v) in &st {
+            out.stat(k, v);
+        }
+        for (j, rows) in v1_fixed_cases().into_iter().enumerate() {
+            let dir = tempfile::tempdir().unwrap();
+            let sq = dir.path().join("chewing.sqlite3");
+            let rows = write_v1(&sq, &rows, false);
+            let want: Vec<E> = rows.iter().map(record_of).collect();
+            match SqliteDictionary::open(&sq) {
+                Ok(d) => {
+                    let got = sorted(d.entries().map(|e| entry_of(&e)).collect());
+                    drop(d);
+                    out.rec(&format!("loader sqlv1 {} => ok {}", v1_rows_tok(&rows), entries_tok(&got)));
+                    if got != sorted(want.clone()) {
+                        out.oracle_fail("C19", "new", &format!("v1-record-missing-or-altered fixed-case-{} want={} got={} rows={}", j, entries_tok(&sorted(want.clone())), entries_tok(&got), v1_rows_tok(&rows)));
+                    }
+                }
+                Err(_) => out.oracle_fail("C19", "new", &format!("v1-store-of-readable-rows-rejected fixed-case-{}", j)),
+            }
+        }
         // the repository's golden files: current schema and the older v1 schema (migrated in-file)
         for g in ["golden-chewing.sqlite3", "golden-chewing-v1.sqlite3"] {
             let src = repo().join("tests/data").join(g);
